@@ -175,6 +175,55 @@ pub fn run_history(hist: &[&[u8]], fu: Option<&FollowUp>, g: &mut G) -> Option<(
 }
 
 
+/// "A rejected packet leaves the receiver usable" in its sharpest form: ONE mutated packet, rejected with Err,
+/// then a cleanup, then the clean session the packet was taken from (same FDT instance id, same TOIs). What the
+/// clean session delivers to a fresh receiver (differential reference, no hand-written expectation) must be
+/// delivered here too. Nothing is claimed when the mutated packet is accepted.
+pub fn run_lone_then_clean(hist: &[&[u8]], g: &mut G) -> Option<(String, String)> {
+    g.histories += 1;
+    let (m, clean) = (hist[0], &hist[1..]);
+    let ep = endpoint();
+    let t = at_ms(60_000);
+    let completes = |mon: &Mon| -> Vec<(u128, Vec<u8>)> {
+        let mut v: Vec<(u128, Vec<u8>)> = mon.writers().iter().filter(|w| w.is_complete()).map(|w| (w.toi, w.data())).collect();
+        v.sort();
+        v.dedup();
+        v
+    };
+    let r = catch(|| -> Option<(String, String)> {
+        let mon = Mon::new(true);
+        let mut rx = MultiReceiver::new(mon.builder(), Some(rx_config()), false);
+        g.pushes += 1;
+        if rx.push(&ep, m, t).is_ok() {
+            return None;
+        }
+        g.err += 1;
+        rx.cleanup(t + Duration::from_millis(100));
+        for (i, p) in clean.iter().enumerate() {
+            let _ = rx.push(&ep, p, t + Duration::from_millis(1000 + i as u64));
+        }
+        let got = completes(&mon);
+        let mon2 = Mon::new(true);
+        let mut rx2 = MultiReceiver::new(mon2.builder(), Some(rx_config()), false);
+        for (i, p) in clean.iter().enumerate() {
+            let _ = rx2.push(&ep, p, t + Duration::from_millis(1000 + i as u64));
+        }
+        let want = completes(&mon2);
+        g.usable_checked += 1;
+        if let Some(miss) = want.iter().find(|w| !got.contains(w)) {
+            return Some((
+                "C04/unusable-after-rejected-packet/same-session".into(),
+                format!("one packet ({} bytes, header-mutated copy of a packet of the session) was rejected with Err; after a cleanup the clean session itself (same FDT instance id) was pushed and object TOI {} ({} bytes), which a fresh receiver completes, was not delivered", m.len(), miss.0, miss.1.len()),
+            ));
+        }
+        None
+    });
+    match r {
+        Ok(v) => v,
+        Err(pm) => Some((format!("C04/panic/{}", panic_sig(&pm)), format!("lone-packet history panicked: {}", pm))),
+    }
+}
+
 /// Same oracle (no panic in push / cleanup / drop) with flute's OWN writers behind the receiver:
 /// `kind` 0 = ObjectWriterBufferBuilder, 1 = ObjectWriterFSBuilder on a scratch directory.
 pub fn run_history_real_writer(hist: &[&[u8]], kind: u8, g: &mut G) -> Option<(String, String)> {
@@ -241,6 +290,10 @@ pub fn replay(v: &serde_json::Value) -> Vec<Violation> {
     let pk: Vec<Vec<u8>> = c.hist.iter().map(|h| unhex(h)).collect();
     let refs: Vec<&[u8]> = pk.iter().map(|p| &p[..]).collect();
     let mut g = G::default();
+    if v["check"] == "lone" {
+        set_rxv(v["case"]["rxv"].as_u64().unwrap_or(0) as u8);
+        return run_lone_then_clean(&refs, &mut g).into_iter().map(|(key, what)| Violation { key, what, case: v.clone() }).collect();
+    }
     if v["check"] == "real-writer" {
         return run_history_real_writer(&refs, v["case"]["kind"].as_u64().unwrap_or(0) as u8, &mut g).into_iter().map(|(key, what)| Violation { key, what, case: v.clone() }).collect();
     }
@@ -516,7 +569,7 @@ pub fn run(thorough: bool) -> i32 {
                 let mut g = G::default();
                 let mut found: Found = BTreeMap::new();
                 let info = info_of(&pk[*pi]);
-                let hdr = info.map(|i| i.hdr_len).unwrap_or(pk[*pi].len()).min(pk[*pi].len());
+                let hdr = info.as_ref().map(|i| i.hdr_len).unwrap_or(pk[*pi].len()).min(pk[*pi].len());
                 for pos in 0..hdr {
                     for sub in substitutions(pk[*pi][pos], thorough) {
                         let mut m = pk[*pi].clone();
@@ -524,6 +577,16 @@ pub fn run(thorough: bool) -> i32 {
                         let hist: Vec<&[u8]> = pk.iter().enumerate().map(|(j, p)| if j == *pi { &m[..] } else { &p[..] }).collect();
                         let r = run_history(&hist, Some(&fu2), &mut g);
                         note(&mut found, r, &hist);
+                        // the mutated packet alone, then the clean session (FDT packets and the first object packet)
+                        if *pi <= 1 || info.as_ref().map(|i| i.toi == 0).unwrap_or(false) {
+                            let mut lone: Vec<&[u8]> = vec![&m[..]];
+                            lone.extend(pk.iter().map(|p| &p[..]));
+                            if let Some((k, w)) = run_lone_then_clean(&lone, &mut g) {
+                                let mut c = case_of(&lone);
+                                c["check"] = json!("lone");
+                                found.entry(k).and_modify(|e| e.2 += 1).or_insert_with(|| (w, c, 1));
+                            }
+                        }
                     }
                 }
                 // truncation of this packet at every length, in context
